@@ -300,7 +300,8 @@ func prun(c PCase, cc *kit.Case) {
 		}
 		// EvalPredicate = Type() then EvalBool; a Type() error is the error of the point
 		po := o
-		if why, generic := oa.judge(p.G, preds, po, "typed", "bool"); why != "" {
+		rootT, wellTyped := staticType(c.Tree, stepEnv(bind))
+		if why, generic := oa.judge(p.G, preds, po, "typed", "bool", wellTyped && rootT == tBool); why != "" {
 			cs := Case{Tree: c.Tree, Groups: c.Groups}
 			for _, q := range c.Points {
 				b, coll := pointScope(refs, q)
